@@ -40,7 +40,7 @@ template <class T> static std::vector<T> nativeAlignZ (const std::vector<T>& a)
 static int native_alignZ = (symns::natives ()["Frame.alignZAxisWithTargetDir"] = symns::Native{&nativeAlignZ<double>, &nativeAlignZ<float>}, 0);
 using namespace IMATH_INTERNAL_NAMESPACE;
 #define IN(Ty, n) auto n = c.template in<Ty<T>> (#n)
-EXTRACT ("C09Up", fr_rotationMatrixUp, "Frame.rotationMatrixWithUpDir",
+EXTRACT_OPT ("C09Up", fr_rotationMatrixUp, "Frame.rotationMatrixWithUpDir", symns::Opts ().lattice (100),
          { IN (Vec3, fromDir); IN (Vec3, toDir); IN (Vec3, upDir); c.out (rotationMatrixWithUpDir (fromDir, toDir, upDir)); })
 EXTRACT ("C09Rot", fr_rotationMatrix, "Frame.rotationMatrix", { IN (Vec3, fromDir); IN (Vec3, toDir); c.out (rotationMatrix (fromDir, toDir)); })
 int main (int argc, char** argv) { return symns::sym_main (argc, argv); }
